@@ -232,9 +232,28 @@ def stream_conformance(ctx, event_files):
     return out
 
 
+def stream_ids_proof(ctx):
+    """Unbounded complement (informational, never gating): TLAPS proof of spec/StreamIds.tla -- no sequence of control
+    frames, fetches, results and reconnections makes Streams::open find its id taken, for any number of streams."""
+    import re
+    import shutil
+    try:
+        d = os.path.join(ctx.work, "tlaps")
+        os.makedirs(d, exist_ok=True)
+        shutil.copy(os.path.join(vlib.SPEC, "StreamIds.tla"), d)
+        p = subprocess.run(["timeout", "300", "tlapm", "--threads", "4", "StreamIds.tla"], cwd=d,
+                           stdout=subprocess.PIPE, stderr=subprocess.STDOUT, text=True)
+        m = re.search(r"All (\d+) obligations proved", p.stdout)
+        return {"ran": True, "all_proved": bool(m), "obligations": int(m.group(1)) if m else None,
+                "theorems": ["NoCrash (Spec => []Inv, Inv = TypeOK /\\ OurIdsAreOurs /\\ ~crashed)"], "prover": "tlapm 1.6.0-pre (SMT, Zenon, Isabelle, PTL)"}
+    except Exception as e:  # tool trouble is not a verdict
+        return {"ran": False, "error": str(e)[:200]}
+
+
 def c13_part(ctx):
     thorough = ctx.tier == "thorough"
     cases, scripts, where, stats = run_wire(ctx, thorough)
+    stats["tlaps_unbounded_proof_stream_ids"] = stream_ids_proof(ctx)
     for c in cases:
         for v in c["viol"]:
             if v["c"] == "C16_Panic":
